@@ -21,6 +21,8 @@ def run(run, model):
     run.do(rec.truth_protocol, model, "C06.truth-protocol")
     run.do(rec.none_is_a_value, model, "C06.none-is-a-value")
     run.do(rec.placeholder_not_a_value, model)
+    run.do(rec.scope_restore, model)
+    run.do(rec.comprehension_env, model)
     run.do(msg.args_listed, model, "C06.args-listed")
     run.do(msg.a_repr_rule, model, "C06.a-repr")
     from . import fwd
@@ -35,3 +37,5 @@ def run(run, model):
     run.minimum("C06.call-args", 1)
     run.minimum("C06.all-trace", 2)
     run.minimum("C06.placeholder-not-shown", 1)
+    run.minimum("C06.scope-restore", 4)
+    run.minimum("C06.comprehension-env", 2)
